@@ -100,51 +100,68 @@ func runC05(c *Ctx) {
 	// ---- S2b who signs which entry: the main provider's own entry is sealed with the advertisement's signing key
 	// (VerifySignature expects exactly that), every other entry with the key fetched for its ID
 	nSeal := 0
+	type sealUse struct {
+		rec, key *X
+		at       ssa.Instruction
+		fn       string
+	}
+	var uses []sealUse
 	for _, f := range c.Funcs(schemaPkg) {
 		for _, cs := range c.Calls(f.SSA, Call("record.Seal")) {
 			if len(cs.X.Args) != 2 {
 				continue
 			}
-			isEP := false
-			for _, r := range c.Actuals(cs.X.Args[0]) {
-				if strings.Contains(r.Name+" "+typeOfX(r), "epSignatureRecord") {
-					isEP = true
+			// a sealing helper: the record and the key are its parameters — judge every call of the helper instead
+			rv, rat := c.ActualsAt(cs.X.Args[0])
+			kv, kat := c.ActualsAt(cs.X.Args[1])
+			if len(rv) > 0 && len(rv) == len(kv) {
+				for i := range rv {
+					if rat[i] == kat[i] {
+						uses = append(uses, sealUse{rv[i], kv[i], rat[i], c.short(topFunc(rat[i].Parent()).String())})
+					}
 				}
-			}
-			if strings.Contains(cs.X.Args[0].Name+" "+typeOfX(cs.X.Args[0]), "epSignatureRecord") {
-				isEP = true
-			}
-			if !isEP {
 				continue
 			}
-			nSeal++
-			isMain := Bin("==", Field("ID", Any()), Field("Provider", Any()))
-			okKeys, nAd, nFetched := true, 0, 0
-			for _, l := range c.LeavesF(cs.X.Args[1], cs.In) {
-				facts := append(append([]Fact{}, l.Facts...), c.FactsAt(cs.In.Block())...)
-				has := func(val bool) bool {
-					for _, fct := range facts {
-						if _, m := Match(isMain, fct.Cond); m && fct.Val == val {
-							return true
-						}
-					}
-					return false
-				}
-				v := strip(l.Val)
-				switch {
-				case v.Op == "param":
-					nAd++
-					okKeys = okKeys && has(true)
-				case v.Op == "extract" && v.Name == "0" && strip(v.Args[0]).Op == "dyncall":
-					nFetched++
-					okKeys = okKeys && has(false)
-				default:
-					okKeys = false
-				}
-			}
-			c.Check(okKeys && nAd == 1 && nFetched == 1, "C05.S2-entry-signing-key", f.Name+" › key sealing an extended-provider entry", cs.In.Pos(),
-				"the advertisement's key exactly for the main provider's entry, the fetched key exactly for the others", "an extended-provider entry can be sealed with a key other than (the advertisement's signing key for the main provider's entry, the key fetched for the entry's ID otherwise): an advertisement signed by the library then fails its own verification")
+			uses = append(uses, sealUse{cs.X.Args[0], cs.X.Args[1], cs.In, f.Name})
 		}
+	}
+	for _, u := range uses {
+		isEP := strings.Contains(u.rec.Name+" "+typeOfX(u.rec), "epSignatureRecord")
+		for _, r := range c.Actuals(u.rec) {
+			if strings.Contains(r.Name+" "+typeOfX(r), "epSignatureRecord") {
+				isEP = true
+			}
+		}
+		if !isEP {
+			continue
+		}
+		nSeal++
+		isMain := Bin("==", Field("ID", Any()), Field("Provider", Any()))
+		okKeys, nAd, nFetched := true, 0, 0
+		for _, l := range c.LeavesF(u.key, u.at) {
+			facts := append(append([]Fact{}, l.Facts...), c.FactsAt(u.at.Block())...)
+			has := func(val bool) bool {
+				for _, fct := range facts {
+					if _, m := Match(isMain, fct.Cond); m && fct.Val == val {
+						return true
+					}
+				}
+				return false
+			}
+			v := strip(l.Val)
+			switch {
+			case v.Op == "param":
+				nAd++
+				okKeys = okKeys && has(true)
+			case v.Op == "extract" && v.Name == "0" && strip(v.Args[0]).Op == "dyncall":
+				nFetched++
+				okKeys = okKeys && has(false)
+			default:
+				okKeys = false
+			}
+		}
+		c.Check(okKeys && nAd == 1 && nFetched == 1, "C05.S2-entry-signing-key", u.fn+" › key sealing an extended-provider entry", u.at.Pos(),
+			"the advertisement's key exactly for the main provider's entry, the fetched key exactly for the others", "an extended-provider entry can be sealed with a key other than (the advertisement's signing key for the main provider's entry, the key fetched for the entry's ID otherwise): an advertisement signed by the library then fails its own verification")
 	}
 	c.Floor("C05.S2-entry-signing-key", 1)
 
